@@ -72,6 +72,9 @@ UNITS = [
              Rw(r"_ = self\s*\.rabin\s*\.prefill_window\(&mut vec\[(?P<a>.+?)\.\.(?P<b>.+?)\]\.iter\(\)\.copied\(\)\);",
                 r"vcdc_prefill_window(&mut self.rabin, &vec, \g<a>, \g<b>);", regex=True,
                 why="rustic_cdc::Rabin64::prefill_window (assumed contract in C06/prelude.rs); index expressions kept verbatim"),
+             Rw(r"_ = self\s*\.rabin\s*\.reset_and_prefill_window\(&mut vec\[(?P<a>.+?)\.\.(?P<b>.+?)\]\.iter\(\)\.copied\(\)\);",
+                r"vcdc_reset_and_prefill_window(&mut self.rabin, &vec, \g<a>, \g<b>);", regex=True,
+                why="rustic_cdc::Rabin64::reset_and_prefill_window (not used by the pinned tree; its real contract -- stale ring bytes survive -- is in C06/prelude.rs so that switching to it is judged, not rejected)"),
              Rw("self.reader.read(&mut self.buf[..])", "vstd_read(&mut self.reader, &mut self.buf)", why="std::io::Read::read (assumed contract)"),
              Rw("e.kind() == io::ErrorKind::Interrupted", "vstd_is_interrupted(e)", why="io::Error::kind"),
              Rw("self.rabin.slide(byte);", "vcdc_slide(&mut self.rabin, byte);", why="rustic_cdc::Rabin64::slide (assumed contract)"),
